@@ -83,6 +83,8 @@ def family_args(draw):
     if fam == "exponential":
         return fam, [draw(_logfl(0.05, 20))]
     if fam == "gamma":
+        if draw(st.integers(0, 5)) == 0:       # a sharply peaked prior with whole-number shape and rate
+            return fam, [float(draw(st.integers(10, 30))), float(draw(st.integers(5, 20)))]
         alpha = draw(st.one_of(_fl(0.3, 8), st.integers(1, 8).map(float), st.just(1.0)))
         return fam, [alpha, draw(_logfl(0.05, 10))]
     if fam == "beta":
@@ -136,6 +138,7 @@ def one_param(draw, idx):
             inward = math.inf if side == "lo" else -math.inf
             x = float(np.nextafter(bnd, inward if cls == "edge_in" else -inward))
     return {"name": f"p{idx}", "family": fam, "args": [float(a) for a in args], "positive": bool(positive),
+            "int_spelling": draw(st.booleans()),
             "value": float(x), "cls": cls, "eps": eps}
 
 
@@ -170,7 +173,9 @@ def _prior_dict(params, order=None):
     """order: the key order of the dictionary (a dictionary's order carries no meaning: parameters are matched by name)."""
     d = {}
     for p in ([params[i] for i in order] if order else params):
-        d[p["name"]] = [p["family"]] + list(p["args"]) + (["positive"] if p["positive"] else [])
+        # whole-number arguments are written as Python ints in half of the specifications (['gamma', 20, 10])
+        args = [int(a) if (p.get("int_spelling") and float(a) == int(a)) else a for a in p["args"]]
+        d[p["name"]] = [p["family"]] + args + (["positive"] if p["positive"] else [])
     return d
 
 
